@@ -8,8 +8,10 @@ Tie     : harness/c18_harness.cpp runs random op sequences (<= 30 ops, 1..3 hand
           call, through the C++ API on a twin object; `psvdriver C18` predicts the C return class of every call from
           the twin's outcome (wrapRet on the generated table) and the handle/ledger state (step on the generated facts).
 Oracle  : (independent of the model) return != 0 / NULL  <=>  the C++ call threw / returned false / could not be made;
-          values and object digests bit-identical; heap retained by the C side == heap retained by the twin
-          (ASan allocator statistics) and LeakSanitizer silent for the C side; no sanitizer abort, no terminate().
+          values and object digests bit-identical; once the script has released every handle and result (the harness
+          counts what is still held) the C side retains no heap at all (ASan allocator statistics; a retention that the
+          C++ twin shows as well is a leak inside the C++ object and is reported too), LeakSanitizer is silent for the
+          C side; no sanitizer abort, no terminate().
 """
 import json, os, random, re, subprocess, sys
 import psvlib
@@ -34,6 +36,19 @@ GOOD = ["t0", "t1", "t2", "t3", "t4"]
 MAXSLOT = 4
 
 
+def empty_grideval_defined():
+    """Is grid evaluation of an object without data a defined operation of the C++ core (an exception), or does it read
+    through the null arrays (process dies; the twin would die identically, so nothing could be learnt about the wrapper)?
+    Looks for a test of ndim before the first use of naxes in detail/grideval.h; PSV_C18_EMPTY_GRIDEVAL=0|1 overrides."""
+    env = os.environ.get("PSV_C18_EMPTY_GRIDEVAL")
+    if env in ("0", "1"): return env == "1"
+    try: src = open(os.path.join(psvlib.REPO, "include/photospline/detail/grideval.h")).read()
+    except OSError: return False
+    src = re.sub(r"/\*.*?\*/", "", src, flags=re.S); src = re.sub(r"//[^\n]*", "", src)
+    i = src.find("naxes[")
+    return i > 0 and re.search(r"\bndim\s*==\s*0|!\s*ndim\b|\bndim\s*<\s*1|0\s*==\s*ndim\b", src[:i]) is not None
+
+
 def wrapper_of(words):
     return GETTERS[words[2]] if words[0] == "get" else WRAPPER_OF[words[0]]
 
@@ -44,8 +59,8 @@ class SeqGen:
     ("valid handles": value wrappers and the wrappers without a `table->data` guard only see handles with an object,
     evaluation only sees loaded tables, init only sees a handle that owns nothing)."""
 
-    def __init__(self, rnd, side, stats):
-        self.r, self.side, self.stats = rnd, side["wrappers"], stats
+    def __init__(self, rnd, side, stats, empty_grideval=False):
+        self.r, self.side, self.stats, self.empty_grideval = rnd, side["wrappers"], stats, empty_grideval
 
     def checks_data(self, op):
         return "table->data" in self.side[WRAPPER_OF[op]]["nullChecked"]
@@ -97,7 +112,8 @@ class SeqGen:
             c += [(o, 1) for o in ("getkey", "readkey", "writekey", "glamfit", "grideval", "convolve") if self.checks_data(o)]
         elif s == "empty":
             c += [("readmem", 5), ("readfile", 3), ("glamfit", 5), ("free", 2), ("writefile", 1), ("writemem", 1), ("getkey", 1), ("readkey", 1),
-                  ("get_ndim", 1), ("writekey", 0.3)]
+                  ("get_ndim", 1), ("writekey", 0.5), ("permute", 0.5), ("convolve", 0.7)]
+            if self.empty_grideval: c.append(("grideval", 0.7))
         else:
             c += [("get", 6), ("search", 3), ("eval", 3), ("grad", 2), ("deriv", 2), ("getkey", 2), ("readkey", 4), ("writekey", 3),
                   ("writefile", 1.5), ("writemem", 1.5), ("grideval", 2.5), ("permute", 2), ("convolve", 1.5), ("readfile", 1.5), ("readmem", 1.5),
@@ -109,8 +125,8 @@ class SeqGen:
         r = self.r; seed = r.randrange(1, 1 << 30)
         if op == "init": return "init %d" % h
         if op == "free": return "free %d" % h
-        if op == "readfile": return "readfile %d %s" % (h, r.choice(GOOD * 2 + ["missing", "garbage", "empty", "trunc"]))
-        if op == "readmem": return "readmem %d %s" % (h, r.choice(GOOD * 2 + ["garbage", "trunc"]))
+        if op == "readfile": return "readfile %d %s" % (h, r.choice(GOOD * 2 + ["missing", "garbage", "empty", "trunc", "trunc2"]))
+        if op == "readmem": return "readmem %d %s" % (h, r.choice(GOOD * 2 + ["garbage", "trunc", "trunc2"]))
         if op == "writefile": return "writefile %d %s" % (h, r.choice(["ok", "ok", "baddir"]))
         if op == "writemem": return "writemem %d" % h
         if op == "getkey": return "getkey %d %s" % (h, r.choice(["INTKEY", "DBLKEY", "STRKEY", "NOPE", "NEWKEY0", "NEWKEY1"]))
@@ -121,20 +137,20 @@ class SeqGen:
         if op == "search": return "search %d %s %d" % (h, r.choice(["in", "in", "out"]), seed)
         if op in ("eval", "grad", "deriv"): return "%s %d in %d" % (op, h, seed)
         if op == "glamfit":
-            if s == "loaded": v = r.choice(["unsorted", "badmono", "badidx", "good1"])
+            if s == "loaded": v = r.choice(["unsorted", "badmono", "badidx", "good1", "good2"])   # fit refuses a table that holds data
             else: v = r.choice(["good1", "good1", "good2", "unsorted", "badmono", "badidx"])
             return "glamfit %d %s %d" % (h, v, seed)
         if op == "grideval":
             free = [k for k in range(MAXSLOT) if not slots[k]]
             if not free: return None
-            return "grideval %d %d %d" % (h, free[0], seed)
+            return "grideval %d %d %d%s" % (h, free[0], seed, " empty-ok" if s == "empty" else "")
         if op == "nddestroy":
             occ = [k for k in range(MAXSLOT) if slots[k]]
             return "nddestroy %d" % r.choice(occ)
         if op == "permute": return "permute %d %s %d" % (h, r.choice(["valid", "valid", "dup", "big"]), seed)
         if op == "convolve":
             if s == "loaded" and inf.get("conv", 0) >= 2: return None
-            return "convolve %d %s %d" % (h, r.choice(["valid", "valid", "huge"]), seed)
+            return "convolve %d %s %d" % (h, r.choice(["valid", "valid", "valid", "huge", "baddim", "negdim", "nokernel"]), seed)
         raise KeyError(op)
 
     def apply(self, w, h, st, info, slots):
@@ -144,16 +160,18 @@ class SeqGen:
         if op == "init": st[h] = "empty"; info[h] = {}
         elif op == "free": st[h] = "null"; info[h] = {}
         elif op == "readfile":
-            if w[2] in GOOD: st[h] = "loaded"; info[h] = {"src": w[2], "zero": w[2] == "t4"}
+            if w[2] in GOOD: st[h] = "loaded"; info[h] = {"src": w[2]}
             else: st[h] = "null"; info[h] = {}
         elif op == "readmem":
             if s == "loaded": pass
-            elif w[2] in GOOD: st[h] = "loaded"; info[h] = {"src": w[2], "zero": w[2] == "t4"}
-            else: st[h] = "empty"
+            elif w[2] in GOOD: st[h] = "loaded"; info[h] = {"src": w[2]}
+            else: st[h] = "empty"                  # a failed read leaves (or makes) the object empty
         elif op == "glamfit":
-            if s != "null" and w[2] in ("good1", "good2"): st[h] = "loaded"; info[h] = {"src": "fit", "zero": False}
+            # fit works on an empty object only; it refuses one that holds data, a failed fit leaves the object empty
+            if s == "empty" and w[2] in ("good1", "good2"): st[h] = "loaded"; info[h] = {"src": "fit"}
         elif op == "grideval":
-            if s == "loaded" and not info[h].get("zero"): slots[int(w[2])] = True
+            # every loaded table yields a result, the all-zero one (t4) a result with no rows
+            if s == "loaded": slots[int(w[2])] = True
         elif op == "convolve":
             if s == "loaded" and w[2] == "valid": info[h]["conv"] = info[h].get("conv", 0) + 1
 
@@ -209,7 +227,8 @@ def run_harness(ctx, exe, seqs, tag, timeout):
                 cs, cv, cdg = split_res(m.group(4)); ts, tv, tdg = split_res(m.group(5))
                 results[cur_id]["ops"][int(m.group(2))] = {"cs": cs, "cv": cv, "cdg": cdg, "ts": ts, "tv": tv, "tdg": tdg, "dC": int(m.group(6)), "dT": int(m.group(7)), "raw": l}
             elif l.startswith("E "):
-                w = l.split(); results[cur_id]["end"] = {"sumC": int(w[2][5:]), "sumT": int(w[3][5:]), "lsan_bytes": lsan.get(w[1], 0)}
+                w = l.split(); kv = dict(x.split("=") for x in w[2:])
+                results[cur_id]["end"] = {"sumC": int(kv["sumC"]), "sumT": int(kv["sumT"]), "liveH": int(kv["liveH"]), "liveR": int(kv["liveR"]), "lsan_bytes": lsan.get(w[1], 0)}
         finished = "Q done" in out
         if finished:
             break
@@ -292,22 +311,39 @@ def judge(seq, res, pred, pidx, pend):
             tie.append("model handle state %s but C handle digest %s after %s" % (m.group(3), r["cdg"], o))
     e = res.get("end")
     if e:
-        bad_ops = [i for i, r in res["ops"].items() if r and "bad" not in r and r["dC"] != r["dT"]]
-        first = seq["ops"][bad_ops[0]].split()[0] if bad_ops else "?"
-        if e["sumC"] != e["sumT"]:
-            viol.append(("leak:%s" % (WRAPPER_OF.get(first, first)), bad_ops[0] if bad_ops else None,
-                         "after freeing every handle the C API sequence retains %d heap bytes, the same sequence through the C++ API %d (LeakSanitizer: %d bytes on the C side); first differing call: %s"
-                         % (e["sumC"], e["sumT"], e["lsan_bytes"], first)))
-        elif e["sumC"] != 0:
-            core.append({"bytes": e["sumC"], "seq": seq["id"]})
-        elif e["lsan_bytes"] > 0:
-            viol.append(("leak:lsan-only", None, "LeakSanitizer reports %d leaked bytes on the C side although the byte accounting is balanced" % e["lsan_bytes"]))
+        # what the model's ledger holds when the script ends  vs  what the harness still finds in the C handles / result slots
         m = re.match(r"E tables=(\d+) ndObjs=(\d+) ndArrays=(\d+) buffers=(\d+) ub=(\d)", pend or "")
         if not m: tie.append("driver end line: %r" % pend)
         else:
-            model_clean = all(int(x) == 0 for x in m.groups())
-            if model_clean != (e["sumC"] == e["sumT"]):
-                tie.append("model ledger after clean-up %s, measured C-vs-C++ heap difference %d" % (m.group(0), e["sumC"] - e["sumT"]))
+            mt, mo = int(m.group(1)), int(m.group(2))
+            if (mt, mo) != (e["liveH"], e["liveR"]):
+                tie.append("model ledger at the end of the script %s, but %d C handle(s) and %d result slot(s) still own something" % (m.group(0), e["liveH"], e["liveR"]))
+        complete = e["liveH"] == 0 and e["liveR"] == 0
+        if not complete:
+            # the generator appends the clean-up from the state it expects; a left-over means its expectation of some
+            # operation's outcome is out of date (nothing can be said about leaks then)
+            tie.append("the generated script does not release everything it acquired (%d handle(s), %d result(s) left): "
+                       "the generator's expectation of an operation's outcome is out of date" % (e["liveH"], e["liveR"]))
+        else:
+            bad_ops = [i for i, r in res["ops"].items() if r and "bad" not in r and r["dC"] != r["dT"]]
+            first = seq["ops"][bad_ops[0]].split()[0] if bad_ops else "?"
+            if e["sumC"] != e["sumT"]:
+                viol.append(("leak:%s" % (WRAPPER_OF.get(first, first)), bad_ops[0] if bad_ops else None,
+                             "after freeing every handle the C API sequence retains %d heap bytes, the same sequence through the C++ API %d (LeakSanitizer: %d bytes on the C side); first differing call: %s"
+                             % (e["sumC"], e["sumT"], e["lsan_bytes"], first)))
+            elif e["sumC"] != 0:
+                # the twin retains the same amount: the leak is inside the C++ object, not in the wrapper; the C caller
+                # loses the memory all the same ("releases every resource it allocated")
+                core.append({"bytes": e["sumC"], "seq": seq["id"]})
+                viol.append(("leak:c++-object", None,
+                             "after freeing every handle and result the C API sequence retains %d heap bytes (LeakSanitizer: %d bytes); the same calls through the C++ API retain the same amount, "
+                             "so the storage is lost inside the C++ object" % (e["sumC"], e["lsan_bytes"])))
+            elif e["lsan_bytes"] > 0:
+                viol.append(("leak:lsan-only", None, "LeakSanitizer reports %d leaked bytes on the C side although the byte accounting is balanced" % e["lsan_bytes"]))
+            if m:
+                model_clean = all(int(x) == 0 for x in m.groups())
+                if model_clean != (e["sumC"] == e["sumT"]):
+                    tie.append("model ledger after clean-up %s, measured C-vs-C++ heap difference %d" % (m.group(0), e["sumC"] - e["sumT"]))
     return viol, tie, core
 
 
@@ -340,7 +376,10 @@ def shrink(ctx, exe, seq, signature, budget=30):
     """greedy removal of ops while the same signature (or the same abort) reproduces"""
     cur = dict(seq); trials = 0
     def reproduces(cand):
-        v, ab, _ = evaluate(ctx, exe, [cand], "shrink", timeout=120)
+        # a leak must show when the sequence runs a second time in the same process (a one-time allocation of a
+        # library, charged to whichever sequence first reaches it, does not)
+        pre = [dict(cand, id="shr0")] if signature.startswith("leak:") else []
+        v, ab, _ = evaluate(ctx, exe, pre + [cand], "shrink", timeout=120)
         if signature.startswith("abort:"): return any(("abort:%s:%s" % (a.get("op"), a.get("kind"))) == signature for a in ab)
         return any(s == signature for s, _, _ in v.get(cand["id"], ([], [], []))[0])
     i = 0
@@ -394,8 +433,9 @@ def report_all(ctx, exe, seqs, verdicts, aborts, results, stats):
             stats["violating_calls"] = stats.get("violating_calls", 0) + 1
             if sig in seen: continue
             seen.add(sig)
-            if exe:   # a violation must reproduce when its sequence runs alone in a fresh process
-                v2, ab2, _ = evaluate(ctx, exe, [dict(by_id[sid], id="confirm")], "confirm", timeout=120)
+            if exe:   # a violation must reproduce when its sequence runs alone in a fresh process (a leak: on the second of two runs there)
+                pre = [dict(by_id[sid], id="confirm0")] if sig.startswith("leak:") else []
+                v2, ab2, _ = evaluate(ctx, exe, pre + [dict(by_id[sid], id="confirm")], "confirm", timeout=120)
                 if not any(s2 == sig for s2, _, _ in v2.get("confirm", ([], [], []))[0]) and not ab2:
                     stats["unconfirmed"] = stats.get("unconfirmed", 0) + 1
                     ctx.note("not reproduced in isolation (ignored): %s in %s" % (sig, sid))
@@ -426,9 +466,12 @@ def run(ctx, only=None):
     if side is None:
         return
     nseq = 220 if ctx.tier == "quick" else 5000
-    stats = {}
+    stats = {"core_leak_sequences": 0}
     rnd = random.Random(ctx.seed * 1000003 + 18)
-    gen = SeqGen(rnd, side, stats)
+    eg = empty_grideval_defined()
+    ctx.coverage["grideval_on_object_without_data"] = "exercised (the core refuses it with an exception)" if eg else \
+        "not exercised: photospline::splinetable<>::grideval reads through null arrays when the object holds no data (proposed fix: fixes/C18-6.diff)"
+    gen = SeqGen(rnd, side, stats, eg)
     seqs = only if only is not None else [gen.sequence("s%d" % k) for k in range(nseq)]
     modes = ["san"] if ctx.tier == "quick" else ["san", "shipped"]
     evals = 0; distinct = set(); kinds = {}; outcomes = {}
@@ -463,8 +506,8 @@ def run(ctx, only=None):
     ctx.assumptions += [
         "valid handles: value wrappers and wrappers without a `table->data` guard are only called on handles that own an object; evaluation only on loaded tables; splinetable_init only on a handle that owns nothing",
         "behaviour classes of the C++ operations (canThrow / canFail in Model/CApi.lean) are read from the headers; the twin observes the actual outcome on every call",
-        "leaks and crashes that the C++ twin reproduces identically through the C++ API (e.g. write_key or fit on an object that already owns data) are counted as core_leak_sequences and belong to C20/C07, not to the wrapper",
-        "corrupt inputs are limited to kinds the C++ reader rejects before building the object (non-FITS bytes, empty file, truncation inside the primary header); deeper corruption is C07",
+        "operations whose C++ implementation has no defined behaviour on an object without data (evaluation, grid evaluation, the per-dimension getters) are only called on loaded tables; a crash that the C++ twin would reproduce identically through the C++ API belongs to C20/C07, not to the wrapper (a *leak* that the twin reproduces is reported: signature leak:c++-object)",
+        "corrupt inputs are limited to non-FITS bytes, an empty file, a truncation inside the primary header and a truncation after the coefficient HDU (the reader fails after it has built part of the object); arbitrary corruption is C07",
         "allocation failure (std::bad_alloc) is covered by the theorem (catch-all handler present), not by the differential run",
     ]
 
